@@ -72,7 +72,7 @@ class C19(Prop):
             for cut in range(1, len(base) + 1):
                 evs = base[:cut] + [["unsub"]] + base[cut:] + [["adv", "5"], ["run"]]
                 out.append(Case("time", "local", [("pipe", [src])], evs, {"kind": "cancel-phase"}))
-        return out
+        return tg.with_units(seed, out)
 
     def project(self, body):
         from .c10 import strip_lock
